@@ -4,12 +4,17 @@
 EXTENDS WKBDecoder, Json
 CONSTANTS L, LG, Mode,      \* Mode = "codec" | "hostile"
           WideN, WideB,     \* member counts of the wide elements (all kinds / line strings only)
-          HexLen            \* longest string of the hex-decoder alphabet
+          HexLen,           \* longest string of the hex-decoder alphabet
+          DeepD             \* nesting depths of the deep chains
 VARIABLE c
 Pats == {<<a, b, d>> : a \in {0, 1}, b \in {0, 1}, d \in {0, 1}}
 CodecCases == [kind : {"enc"}, g : Geoms(L, LG) \cup Wide(WideN, WideB), bo : {0, 1}]
               \cup {[kind |-> "dec", bytes |-> EncPat(x, p, 0, 0), valid |-> TRUE, want |-> x] : x \in Geoms(L, LG), p \in Pats}
               \cup {[kind |-> "dec", bytes |-> EncPat(x, p, 0, 0), valid |-> TRUE, want |-> x] : x \in Wide(WideN, WideB), p \in {<<0, 0, 0>>, <<1, 1, 0>>}}
+(* deep chains: the case carries the leaf and the depth (the harness builds the chain and encodes it) and one encoding with
+   byte orders alternating by depth (the harness decodes it and peels the collections off again) *)
+DeepCases == {[kind |-> "deep", leaf |-> g, d |-> d, bo |-> p[1], bytes |-> EncPat(DeepG(g, d), p, 0, 0)] :
+                g \in {G("Point", PtK(5)), G("LineString", PathK(0, 2))}, d \in DeepD, p \in {<<0, 0, 0>>, <<1, 1, 0>>}}
 (* members of a foreign type: a complete, decodable geometry of another type where a multi-geometry requires a Point /
    LineString / Polygon.  The reference decoder rejects every one of them (so must the code: an error, not a nil geometry) *)
 ForeignMember == {G("Point", PtK(1)), G("LineString", PathK(0, 2)), G("LineString", <<PtK(3), PtK(3)>>), G("Polygon", PathsK(1, <<0, 0>>)),
@@ -38,7 +43,7 @@ HexStrings == UNION {[1..n -> HexAlphabet] : n \in 0..HexLen}
 HexCases == {[kind |-> "hexstr", chars |-> s] : s \in HexStrings}
 GenInit == IF Mode = "foreign" THEN c \in ForeignCases \cup HexCases /\ PrintT(ToJson(c)) /\ Init
            ELSE IF Mode = "codec"
-           THEN c \in CodecCases /\ PrintT(ToJson(c)) /\ Init
+           THEN c \in CodecCases \cup DeepCases /\ PrintT(ToJson(c)) /\ Init
            ELSE c = 0 /\ Init
 GenNext == Mode = "hostile" /\ Next /\ UNCHANGED c
 GenSpec == GenInit /\ [][GenNext]_<<vars, c>>
